@@ -243,6 +243,9 @@ class FixedWindowPolicy:
             raise ValueError(f"window_size must be > 0, got {window_size}")
         self._requests_per_window = requests_per_window
         self._window_size = window_size
+        # Window arithmetic is done in integer nanoseconds: float floor-division
+        # misplaces arrivals that fall exactly on a window boundary.
+        self._window_ns = max(1, round(window_size * 1_000_000_000))
         self._current_window_start: Instant | None = None
         self._current_window_count: int = 0
 
@@ -255,8 +258,7 @@ class FixedWindowPolicy:
         return self._window_size
 
     def _get_window_start(self, now: Instant) -> Instant:
-        now_s = now.to_seconds()
-        return Instant.from_seconds((now_s // self._window_size) * self._window_size)
+        return Instant((now.nanoseconds // self._window_ns) * self._window_ns)
 
     def _maybe_reset(self, now: Instant) -> None:
         ws = self._get_window_start(now)
@@ -278,7 +280,7 @@ class FixedWindowPolicy:
         # Wait until next window starts
         if self._current_window_start is None:
             return Duration.ZERO
-        next_window = self._current_window_start + self._window_size
+        next_window = self._current_window_start + Duration(self._window_ns)
         remaining = (next_window - now).to_seconds()
         if remaining <= 0:
             return Duration.ZERO
